@@ -719,6 +719,31 @@ class Prov:
                 return self._simplify_call(name, args, node, c)
         return ('local', l, fn.local_name(l))
 
+    def def_exprs(self, l):
+        """[(bb, expr)] for every whole definition of local l (one level, operands fully resolved)."""
+        out = []
+        for (bi, si, k, node) in self.fn.whole_defs(l):
+            if k == 'assign':
+                out.append((bi, self.rvalue(node['rv'], 1)))
+            elif k == 'call':
+                c = callee_of(node)
+                name = strip_generics(c['path']) if c else '<indirect>'
+                args = [self.operand(a, 1) for a in node['args']]
+                out.append((bi, self._simplify_call(name, args, node, c)))
+        return out
+
+    def expand(self, e, depth=0, seen=None):
+        """All alternative expressions of e with multi-def locals expanded one level per local
+        (bounded): returns list of (expr, [def blocks])."""
+        seen = seen or set()
+        if e[0] == 'local' and e[1] not in seen and depth < 3:
+            outs = []
+            for bi, de in self.def_exprs(e[1]):
+                for (x, bs) in self.expand(de, depth + 1, seen | {e[1]}):
+                    outs.append((x, [bi] + bs))
+            return outs or [(e, [])]
+        return [(e, [])]
+
     def _simplify_call(self, name, args, node, c):
         # transparent wrappers
         if name.endswith('Deref::deref') or name.endswith('DerefMut::deref_mut'):
